@@ -2,14 +2,14 @@ SPECIFICATION Spec
 CONSTANTS Keys = {"k0", "k1"}
           Self = "k0"
           Vals = {"A", "B"}
-          Lives = {1, 5}
+          Lives = {1}
           TTLs = {1, 3}
           DefTTL = 3
           L = 3
           Interval = 2
           Initial = 1
           FailRetry = 1
-          MaxT = 1
+          MaxT = 0
           MaxSeq = 1
           MaxOps = 2
           MaxRounds = 1
